@@ -383,7 +383,8 @@ def main(argv=None):
         ev["coverage"]["transitions"] = max(1, ev["coverage"]["transitions"])
     if not a.only:
         # evidence/ describes runs against /repo itself; runs against a scratch copy (seeded changes, mutants) write elsewhere
-        evdir = os.path.join(VERIF, "evidence") if os.path.realpath(REPO) == "/repo" else os.path.join(VERIF, "scratch", "evidence")
+        evdir = os.path.join(VERIF, "evidence") if (os.path.realpath(REPO) == "/repo" and not os.environ.get("VERIF_SCRATCH_EVIDENCE")) \
+            else os.path.join(VERIF, "scratch", "evidence")
         os.makedirs(evdir, exist_ok=True)
         json.dump(ev, open(os.path.join(evdir, f"{prop}.json"), "w"), indent=1, default=str)
     print(f"{prop} {tier}: {len(sel)} obligations, {st.paths} paths, queries {st.q}, solver {st.solver_s:.1f}s, "
